@@ -21,6 +21,9 @@ type lessSwap interface {
 type replica struct {
 	d lessSwap
 	r *SortRegimes
+	// skipHeap makes heapSort a no-op (used by the adversary: the elements of the range
+	// handed to heapsort stay undecided and get random values afterwards)
+	skipHeap bool
 }
 
 func ReplicaSort(d lessSwap) SortRegimes {
@@ -30,7 +33,18 @@ func ReplicaSort(d lessSwap) SortRegimes {
 	for i := n; i > 0; i >>= 1 {
 		depth++
 	}
-	replica{d, &r}.quickSort(0, n, depth*2)
+	replica{d: d, r: &r}.quickSort(0, n, depth*2)
+	return r
+}
+
+func replicaSortSkipHeap(d lessSwap) SortRegimes {
+	var r SortRegimes
+	n := d.Len()
+	depth := 0
+	for i := n; i > 0; i >>= 1 {
+		depth++
+	}
+	replica{d: d, r: &r, skipHeap: true}.quickSort(0, n, depth*2)
 	return r
 }
 
@@ -63,6 +77,9 @@ func (s replica) siftDown(lo, hi, first int) {
 
 func (s replica) heapSort(a, b int) {
 	s.r.Heapsort++
+	if s.skipHeap {
+		return
+	}
 	first, lo, hi := a, 0, b-a
 	for i := (hi - 1) / 2; i >= 0; i-- {
 		s.siftDown(i, hi, first)
@@ -220,6 +237,34 @@ func KillerSequence(n int) ([]int, SortRegimes) {
 		a.val[i] = a.gas
 	}
 	r := ReplicaSort(a)
+	return a.val, r
+}
+
+// KillerSequenceOpen runs the adversary through the quicksort phase only: the elements
+// that the algorithm hands to its heapsort fallback stay undecided ("gas") and are then
+// given distinct values in an order drawn from rng. Every such assignment is consistent
+// with the answers the adversary gave (gas is larger than every decided value), so a
+// deterministic implementation of the same algorithm takes the same path and then has to
+// heapsort a range of distinct, shuffled keys.
+func KillerSequenceOpen(n int, rng *SplitMix) ([]int, SortRegimes) {
+	a := &adversary{ptr: Iota(n), val: make([]int, n), gas: 1 << 40}
+	for i := range a.val {
+		a.val[i] = a.gas
+	}
+	r := replicaSortSkipHeap(a)
+	var open []int
+	for item, v := range a.val {
+		if v == a.gas {
+			open = append(open, item)
+		}
+	}
+	for i := len(open) - 1; i > 0; i-- {
+		j := rng.Intn(i + 1)
+		open[i], open[j] = open[j], open[i]
+	}
+	for k, item := range open {
+		a.val[item] = a.nsolid + k
+	}
 	return a.val, r
 }
 
